@@ -1,1 +1,218 @@
-/-! Property theorems for C08 (none yet). -/
+import MirVerif.Model.Layout
+import MirVerif.Model.Classify
+import MirVerif.Lemmas.Layout
+import MirVerif.Lemmas.LayoutBf
+import MirVerif.Lemmas.Classify
+import MirVerif.Lemmas.ClassifyArgs
+/-!
+# Property C08 — c2mir lays out and passes C data exactly as the platform ABI does
+
+`c2mLay` / `c2mClassify` / `c2mProto` are literal models of `c2mir/c2mir.c` (`set_type_layout`,
+`update_field_layout`, `aux_set_type_align`) and `c2mir/x86_64/cx86_64-ABI-code.c`; `sysvLay` /
+`sysvClass` / `sysvProto` are the x86-64 psABI (as implemented by the reference compiler).  Both
+sides are compared with the real c2m and gcc on every run by `checks/c08.py`.
+
+Statements that are FALSE for the code as it is are kept (commented, with a machine-checked
+counter-example) next to the `…_partial` theorem that does hold.
+-/
+namespace MirVerif.C08
+open MirVerif.Layout MirVerif.Classify
+
+/-! ## Layout -/
+
+/-- the search loop of `update_field_layout` is never run with alignment 0 (its `assert`), so the
+well-founded recursion of `ufLoop` is the whole story of its termination -/
+theorem align_pos (t : CTy) : 0 < (c2mLay t).align := c2mLay_align_pos t
+
+/-- `layout_wf`, part 1 (all well-formed types, bit-fields included): `sizeof` is positive and a
+multiple of `_Alignof`; arrays have no padding between elements; in a struct/union there is one
+placement per member, every `decl->offset` is a multiple of the alignment of the member's type and
+every member (or bit-field storage unit) lies inside the object; the alignment of every member's
+type divides nothing bigger than the aggregate's alignment (`≤`, powers of two in practice). -/
+theorem layout_wf (t : CTy) (hw : t.wf = true) :
+    0 < (c2mLay t).size ∧ (c2mLay t).align ∣ (c2mLay t).size
+    ∧ (∀ n e, t = .arr n e → (c2mLay t).size = n * (c2mLay e).size)
+    ∧ (∀ u ms, t = .agg u ms →
+        unitsAligned ms (c2mLay t).mems = true ∧ unitsInside (c2mLay t).size ms (c2mLay t).mems = true) := by
+  refine ⟨c2mLay_size_pos t hw, c2mLay_size_dvd t, ?_, ?_⟩
+  · intro n e h; subst h; exact c2mLay_arr_size n e
+  · intro u ms h
+    subst h
+    simp [CTy.wf] at hw
+    obtain ⟨l, h1, h2, h3, _, _⟩ := c2mFold_out u ms {} hw.2
+    have hal := c2mLay_align_pos (.agg u ms)
+    simp [c2mLay] at hal h1 ⊢
+    rw [h1]
+    refine ⟨h2, unitsInside_mono ?_ _ _ h3⟩
+    rw [roundSize_eq_roundUp hal]
+    exact roundUp_ge hal
+
+example : (CTy.agg false (.cons .plain (.sc .char) (.cons (.bf 3 true) (.sc .int) .nil))).wf = true := by decide
+
+/-- `layout_meets_sysv` for every declaration without bit-fields: `sizeof`, `_Alignof` and every
+member offset computed by c2mir equal the psABI's. -/
+theorem layout_meets_sysv (t : CTy) (hw : t.wf = true) (hn : t.noBf = true) : c2mLay t = sysvLay t :=
+  (lay_eq_noBf t hw hn).1
+
+/-- a non-trivial instance: nested struct, anonymous union, array, long double -/
+def exNoBf : CTy :=
+  .agg false (.cons .plain (.sc .char) (.cons .anon (.agg true (.cons .plain (.sc .int)
+    (.cons .plain (.arr 3 (.agg false (.cons .plain (.sc .short) (.cons .plain (.sc .char) .nil)))) .nil)))
+    (.cons .plain (.sc .ldouble) .nil)))
+example : exNoBf.wf = true ∧ exNoBf.noBf = true := by decide
+example : (c2mLay exNoBf).size = 32 ∧ (c2mLay exNoBf).align = 16 := by decide +kernel
+
+/-- `layout_wf`, part 2: the members of a struct without bit-fields are laid out in declaration
+order, pairwise disjoint and inside the object. -/
+theorem layout_wf_struct_disjoint (ms : Mems) (hw : (CTy.agg false ms).wf = true) (hn : ms.noBf = true) :
+    orderedUpTo 0 (c2mLay (.agg false ms)).mems (8 * (c2mLay (.agg false ms)).size) = true := by
+  rw [layout_meets_sysv (.agg false ms) hw (by simpa [CTy.noBf] using hn)]
+  exact sysvLay_struct_ordered ms hn
+
+/-! ### The full statements are false for bit-fields (DESIGN §6 #22–#24) -/
+
+/-- #22 `struct {int f0:5; char f1:4; long long f2:35;}` -/
+def ex22 : CTy :=
+  .agg false (.cons (.bf 5 true) (.sc .int) (.cons (.bf 4 true) (.sc .char) (.cons (.bf 35 true) (.sc .llong) .nil)))
+/-- #23 `struct {unsigned short a; long :0;}` -/
+def ex23 : CTy := .agg false (.cons .plain (.sc .ushort) (.cons (.bf 0 false) (.sc .long) .nil))
+/-- #23 `struct {long long :52; int b;}` -/
+def ex23b : CTy := .agg false (.cons (.bf 52 false) (.sc .llong) (.cons .plain (.sc .int) .nil))
+/-- #24 `struct {char :0; long double x;}` -/
+def ex24 : CTy := .agg false (.cons (.bf 0 false) (.sc .char) (.cons .plain (.sc .ldouble) .nil))
+
+/- FALSE today:  theorem layout_meets_sysv_full (t) (hw : t.wf) : c2mLay t = sysvLay t -/
+theorem layout_meets_sysv_full_false : ∃ t : CTy, t.wf = true ∧ c2mLay t ≠ sysvLay t :=
+  ⟨ex22, by decide, by decide +kernel⟩
+
+/-- #22: f2 is put at bit 4, on top of f0 (bits 0–4) and f1 (bits 8–11); psABI: bit 12 -/
+theorem ex22_overlap : (c2mLay ex22).mems.map (·.bitpos) = [0, 8, 4]
+    ∧ (sysvLay ex22).mems.map (·.bitpos) = [0, 8, 12]
+    ∧ orderedUpTo 0 (c2mLay ex22).mems 64 = false := by decide +kernel
+/-- #23: unnamed / zero-width bit-fields raise alignment and size -/
+theorem ex23_align : (c2mLay ex23).align = 8 ∧ (sysvLay ex23).align = 2
+    ∧ (c2mLay ex23b).size = 16 ∧ (sysvLay ex23b).size = 12 := by decide +kernel
+/-- #24: a leading zero-width bit-field displaces the next member -/
+theorem ex24_displaced : (c2mLay ex24).mems.map (·.bitpos) = [0, 128]
+    ∧ (sysvLay ex24).mems.map (·.bitpos) = [0, 0] := by decide +kernel
+
+/-- `layout_meets_sysv_partial`: the full statement holds for every declaration in which, per
+struct/union, all bit-fields are named, of non-zero width and declared with types of one size
+(`CTy.bfSimple`, decidable; printed for every generated declaration by `mirdrv_c08 layout`). -/
+theorem layout_meets_sysv_partial (t : CTy) (hw : t.wf = true) (hs : t.bfSimple = true) :
+    c2mLay t = sysvLay t :=
+  (lay_eq_simple t hw hs).1
+
+/-- `struct {char c; int a:3; int b:30; short s; unsigned u:9; struct {long x:40; long y:40;} n;}` -/
+def exSimple : CTy :=
+  .agg false (.cons .plain (.sc .char) (.cons (.bf 3 true) (.sc .int) (.cons (.bf 30 true) (.sc .int)
+    (.cons .plain (.sc .short) (.cons (.bf 9 true) (.sc .uint)
+    (.cons .plain (.agg false (.cons (.bf 40 true) (.sc .long) (.cons (.bf 40 true) (.sc .long) .nil))) .nil))))))
+example : exSimple.wf = true ∧ exSimple.bfSimple = true ∧ exSimple.noBf = false := by decide
+example : (c2mLay exSimple).mems.map (·.bitpos) = [0, 8, 32, 64, 80, 128] ∧ (c2mLay exSimple).size = 32 := by
+  decide +kernel
+
+/-! ## Classification -/
+
+/-- `get_result_type` is the psABI merge -/
+theorem merge_is_sysv : ∀ a b, c2mMerge a b = sysvMerge a b := by
+  intro a b; cases a <;> cases b <;> rfl
+
+/-- `merge_lattice`: `get_result_type` is commutative and idempotent, `NO_CLASS` is neutral and
+MEMORY absorbing; it is associative on the classes that can arise without `long double`. -/
+theorem merge_lattice :
+    (∀ a b, c2mMerge a b = c2mMerge b a)
+    ∧ (∀ a, c2mMerge a a = a) ∧ (∀ a, c2mMerge .no a = a ∧ c2mMerge a .no = a)
+    ∧ (∀ a, c2mMerge .mem a = .mem ∧ c2mMerge a .mem = .mem)
+    ∧ (∀ a b c, a ≠ .x87 → a ≠ .x87up → b ≠ .x87 → b ≠ .x87up → c ≠ .x87 → c ≠ .x87up →
+        c2mMerge (c2mMerge a b) c = c2mMerge a (c2mMerge b c)) := by
+  refine ⟨?_, ?_, ?_, ?_, ?_⟩
+  · intro a b; cases a <;> cases b <;> rfl
+  · intro a; cases a <;> rfl
+  · intro a; cases a <;> exact ⟨rfl, rfl⟩
+  · intro a; cases a <;> exact ⟨rfl, rfl⟩
+  · intro a b c h1 h2 h3 h4 h5 h6
+    cases a <;> cases b <;> cases c <;> first | rfl | contradiction
+
+/- FALSE (for the psABI merge itself, hence for `get_result_type`): associativity on all classes.
+   INTEGER hides X87, SSE with X87 gives MEMORY; classification therefore depends on member order,
+   and both the code and the specification fold in declaration order. -/
+theorem merge_not_assoc :
+    c2mMerge (c2mMerge .int .sse) .x87 = .int ∧ c2mMerge .int (c2mMerge .sse .x87) = .mem := by decide
+
+/-- `struct {int a; struct {int x; float y;} s;}` -/
+def exStraddle : CTy :=
+  .agg false (.cons .plain (.sc .int) (.cons .plain (.agg false (.cons .plain (.sc .int) (.cons .plain (.sc .float) .nil))) .nil))
+
+/- FALSE today:  theorem class_meets_sysv_full (t) (hw : t.wf) (hn : t.noBf) :
+     (c2mClassify t).getD [.mem] = sysvClass sysvLay t -/
+theorem class_meets_sysv_full_false : ∃ t : CTy, t.wf = true ∧ t.noBf = true ∧
+    (c2mClassify t).getD [.mem] ≠ sysvClass sysvLay t :=
+  ⟨exStraddle, by decide, by decide, by decide +kernel⟩
+theorem exStraddle_classes : c2mClassify exStraddle = some [.int, .int]
+    ∧ sysvClass sysvLay exStraddle = [.int, .sse] := by decide +kernel
+
+/-- `class_meets_sysv_partial`: for declarations without bit-fields in which every member of
+struct/union/array type starts on an eightbyte boundary (or is an array of small scalars inside one
+eightbyte) and arrays have one element, 8-byte-multiple elements or scalar elements (`clsAligned`,
+decidable, printed by `mirdrv_c08 class`), `classify_arg` returns the psABI classes. -/
+theorem class_meets_sysv_partial (t : CTy) (hw : t.wf = true) (hn : t.noBf = true)
+    (ha : clsAligned t = true) : (c2mClassify t).getD [.mem] = sysvClass sysvLay t :=
+  class_eq t hw hn ha
+
+/-- `struct {float f; char c[3]; union {long l; double d;} u;}` (INTEGER, INTEGER) -/
+def exCls : CTy :=
+  .agg false (.cons .plain (.sc .float) (.cons .plain (.arr 3 (.sc .char))
+    (.cons .plain (.agg true (.cons .plain (.sc .long) (.cons .plain (.sc .double) .nil))) .nil)))
+example : exCls.wf = true ∧ exCls.noBf = true ∧ clsAligned exCls = true
+    ∧ c2mClassify exCls = some [.int, .int] := by decide +kernel
+
+/-- `blk_kind_consistent`: for an aggregate that is classified as the psABI does, and as long as
+c2mir's register counters do not exceed the number of registers, `get_blk_type` /
+`process_aggregate_arg` select exactly the registers the psABI assigns (BLK = memory), and the
+counters advance alike. -/
+theorem blk_kind_consistent (u : Bool) (ms : Mems) (ai : ArgInfo)
+    (hok : ClassOK sysvLay (.agg u ms)) (hI : ai.nI ≤ 6) (hF : ai.nF ≤ 8) :
+    (c2mArg ai (.agg u ms)).1 = (sysvArg sysvLay ⟨ai.nI, ai.nF⟩ (.agg u ms)).1
+    ∧ (c2mArg ai (.agg u ms)).2.nI = (sysvArg sysvLay ⟨ai.nI, ai.nF⟩ (.agg u ms)).2.nI
+    ∧ (c2mArg ai (.agg u ms)).2.nF = (sysvArg sysvLay ⟨ai.nI, ai.nF⟩ (.agg u ms)).2.nF :=
+  arg_agg sysvLay u ms ai hok hI hF
+
+/-- `proto_meets_sysv_partial`: a whole prototype is passed and returned as the psABI says when
+every aggregate in it is classified correctly (`ClassOK`) and c2mir reaches every aggregate
+parameter with counters ≤ 6 / ≤ 8 (`countersOk`, decidable, printed by `mirdrv_c08 proto`). -/
+theorem proto_meets_sysv_partial (ret : Option CTy) (ps : List CTy)
+    (hret : ∀ t, ret = some t → isParamTy t = true ∧ (isAgg t = true → ClassOK sysvLay t))
+    (hps : ∀ t ∈ ps, isParamTy t = true ∧ (isAgg t = true → ClassOK sysvLay t))
+    (hc : countersOk { nI := if ret.map c2mRet = some .sret then 1 else 0 } ps = true) :
+    c2mProto ret ps = sysvProto sysvLay ret ps :=
+  proto_eq sysvLay ret ps hret hps hc
+
+/-- the hypotheses are satisfiable: `struct {long a; double d;} f (long, struct {double d;}, float)` -/
+def exSD : CTy := .agg false (.cons .plain (.sc .double) .nil)
+def exLD : CTy := .agg false (.cons .plain (.sc .long) (.cons .plain (.sc .double) .nil))
+example : ClassOK sysvLay exSD := by
+  refine ⟨by decide +kernel, ?_⟩
+  intro cs h
+  have : c2mClassify exSD = some [.sse] := by decide +kernel
+  rw [this] at h; cases h; rfl
+example : countersOk {} [.sc .long, exSD, .sc .float] = true
+    ∧ c2mProto (some exLD) [.sc .long, exSD, .sc .float]
+      = (some (.regs [.int, .sse]), [.regs [.int], .regs [.sse], .regs [.sse]]) := by decide +kernel
+
+/-- `struct {double d; unsigned :0;}`: same layout on both sides, but c2mir classifies the
+zero-width bit-field INTEGER (GCC ≥ 12.1 / psABI ignore it in a struct) -/
+def exZeroWidth : CTy := .agg false (.cons .plain (.sc .double) (.cons (.bf 0 false) (.sc .uint) .nil))
+theorem exZeroWidth_classes : c2mLay exZeroWidth = sysvLay exZeroWidth
+    ∧ c2mClassify exZeroWidth = some [.int] ∧ sysvClass sysvLay exZeroWidth = [.sse] := by
+  decide +kernel
+
+/- FALSE today:  theorem proto_meets_sysv_full: c2mProto ret ps = sysvProto sysvLay ret ps
+   (even when every aggregate is classified correctly): the register counter is not saturated. -/
+theorem proto_counter_false :
+    let l := CTy.sc .long; let sd := CTy.agg false (.cons .plain (.sc .double) .nil)
+    (c2mProto none [l, l, l, l, l, l, l, sd]).2.getLast? = some .stack
+    ∧ (sysvProto sysvLay none [l, l, l, l, l, l, l, sd]).2.getLast? = some (.regs [.sse]) := by
+  decide +kernel
+
+end MirVerif.C08
